@@ -118,6 +118,24 @@ def run(ctx: Context) -> None:
             ifn = cfg._by_ast[id(n)][0]
             later = [x for x in cfg.nodes if node_calls(x, lambda c: (chain(c.func) or [""])[-1] == "start_tls")]
             later += [x for x in cfg.nodes if x.kind == "stmt" and isinstance(x.ast, ast.Assign) and norm(x.ast.targets[0]) == "self._connected" and norm(x.ast.value) == "True"]
+            # nothing between the status test and the raise may fail with anything else: the refusal is reported as ProxyError
+            # whatever the proxy sends after the head (the connection close is the only other effect of the branch)
+            others = []
+            for st in n.body:
+                if isinstance(st, ast.Raise):
+                    break
+                for x in cfg.nodes:
+                    if x.ast is None or not any(x.ast is y for y in ast.walk(st)):
+                        continue
+                    cls = {c for c in x.own.classes() if c not in ("Cancelled", "CancelledError")}
+                    is_close = node_calls(x, lambda c: (chain(c.func) or [""])[-1] in ("aclose", "close"))
+                    if cls and not is_close:
+                        others.append((x, sorted(cls)))
+                    elif not is_close and any(isinstance(y, ast.Await) for y in ast.walk(st)):
+                        others.append((x, ["<suspends>"]))
+            rep.ob("C11.R3", fkey(tree, tf, "refusal-always-proxyerror"), not others, where(tf, others[0][0].ast if others else n),
+                   "between the status test and `raise ProxyError` only the connection close runs" if not others else
+                   f"`{others[0][0].text()}` in the refusal branch can fail with {others[0][1][:4]}: a refusal whose body is cut short, stalls or is malformed is then not reported as ProxyError")
             rep.ob("C11.R3", fkey(tree, tf, "check-dominates"), bool(later) and all(cfg.dominates(ifn, x) for x in later), where(tf, n), "the status check dominates the TLS upgrade and the point where the tunnel is marked connected (after which origin requests flow)")
         # ---- R4
         lit = []
